@@ -43,6 +43,47 @@ theorem emit_serialise_norm (T : Nat → ClassDef) : ∀ i, emit (serialise T (n
       exact ih s hs k hk
     rw [List.map_append, List.map_append, orderedKids_map, orderedKids_map, hkids, emit_ofExtList_norm]
 
+theorem wire_tag (x : XNode) : (wire x).tag = x.tag := by
+  cases x; simp [wire_mk, XNode.tag]
+
+/-- "children in schema order": what `_add_members_to_element_tree` writes -/
+theorem serialise_kid_tags (T : Nat → ClassDef) (hT : TableWf T) (i : Inst) (hwf : treeWf T i = true) :
+    (wire (serialise T i)).kids.map (·.tag) = expectedOrder T i := by
+  cases i with
+  | mk c as ss t ee ea =>
+    obtain ⟨hcd, hsound⟩ := hT c
+    obtain ⟨hslots, _⟩ := instOk_parts hwf
+    obtain ⟨hlen, hsl⟩ := slotsOk_spec true T _ ss hslots
+    simp only [serialise, wire_mk, XNode.kids, expectedOrder, List.map_map, List.map_append]
+    have hfun : ((fun x => x.tag) ∘ wire) = fun x : XNode => x.tag := by
+      funext x; simp [wire_tag]
+    rw [hfun]
+    congr 1
+    · simp only [orderedKids, List.map_flatMap]
+      congr 1
+      funext m
+      cases hi : idxOf (members (T c)) m with
+      | none => rfl
+      | some j =>
+        simp only
+        obtain ⟨hjm, _⟩ := idxOf_eq_some_iff hi
+        have hjd : j < (T c).children.length := by simpa [members] using hjm
+        have hjs : j < ss.length := by omega
+        have h1 : (serSlots T ss).getD j [] = (ss[j]).map (serialise T) := by
+          rw [serSlots_eq_map]; simp [List.getD, hjs, serList_eq_map]
+        have h2 : ss.getD j [] = ss[j] := by simp [List.getD, hjs]
+        rw [h1, h2, List.map_map]
+        apply List.map_congr_left
+        intro k hk
+        obtain ⟨hc, _⟩ := (hsl j hjd hjs).2 k hk
+        have hs' := hsound (T c).children[j] (List.getElem_mem hjd)
+        simp only [declSound, ← hc, decide_eq_true_eq] at hs'
+        simp [Function.comp, serialise_tag, hs', hjd]
+    · rw [ofExtList_eq_map, List.map_map]
+      apply List.map_congr_left
+      intro e _
+      simp [Function.comp, ofExt_tag]
+
 theorem classSerialisable_of_orderOk (cd : ClassDef) (h : orderOk cd = true) : classSerialisable cd = true := by
   simp only [orderOk, Bool.and_eq_true, orderIdxs, List.all_map] at h
   exact h.1.1
